@@ -36,6 +36,10 @@ def alphabet_fields():
         "ch": lambda n: [{"name": n, "ty": S("char"), "bits": None}],
         "bits8": lambda n: [{"name": n + "a", "ty": S("uint8"), "bits": 3}, {"name": n + "b", "ty": S("uint8"), "bits": 5}],
         "bits32": lambda n: [{"name": n + "a", "ty": S("uint32"), "bits": 7}, {"name": n + "b", "ty": ("enum", "E32"), "bits": 9}],
+        # an enum / flag bit-field sharing its unit with a bit-field of its own base type (either order): one unit for the layout and
+        # the bit buffer, so the generator's offset bookkeeping must count one unit as well
+        "bitsE8": lambda n: [{"name": n + "a", "ty": ("enum", "E8"), "bits": 2}, {"name": n + "b", "ty": S("uint8"), "bits": 2}],
+        "bitsF16": lambda n: [{"name": n + "a", "ty": S("uint16"), "bits": 4}, {"name": n + "b", "ty": ("enum", "F16"), "bits": 4}],
         "arr": lambda n: [{"name": n, "ty": ("arr", S("uint16"), ("fixed", 2)), "bits": None}],
         "carr": lambda n: [{"name": n, "ty": ("arr", S("char"), ("fixed", 3)), "bits": None}],
         "st": lambda n: [{"name": n, "ty": ("struct", [{"name": n + "x", "ty": S("uint8"), "bits": None}, {"name": n + "y", "ty": S("uint32"), "bits": None}]), "bits": None}],
